@@ -4,7 +4,7 @@ C06 driver.  Case lines (REC as in C05: NAME/TYPE/CLS/TTL/RDATA):
   tag RDATAHEX                                 → key tag                      (calculate_key_tag_internal)
   attl EXP OTTL RECTTL NOW                     → authenticated TTL
   vk NOW KPROOF KEY SIG NAME TYPE ORC REC*     → `ok P TTL|none` | `err P`    (verify_rrset_with_dnskey)
-  begin [pos=LO:HI] [neg=LO:HI]                → resets the validation cache
+  begin [ta=ALG:PK,…] [pos=LO:HI] [neg=LO:HI]  → resets the validation cache (ta: trust anchors, harness only)
   h NOW INST CK KEYS SIG NAME TYPE ORCS REC*   → `fresh|cached P ttl… sig P TTL` (verify_rrsets via send)
   end
 KEY  = OWNER;FLAGS;ALG;PUBKEYHEX        KEYS = KEY;PROOF|KEY;PROOF|…  (`-` = none)
@@ -77,6 +77,7 @@ def parseCfg : List String → CacheConfig → Option CacheConfig
     match t.splitOn "=" with
     | ["pos", r] => do parseCfg ts { c with positive := some (← parseRange r) }
     | ["neg", r] => do parseCfg ts { c with negative := some (← parseRange r) }
+    | ["ta", _] => parseCfg ts c   -- trust anchors of the block: harness only
     | _ => none
 
 def step (s : State) (toks : List String) : State × String :=
